@@ -97,7 +97,7 @@ func (p npSc) scenario() *sched.Scenario {
 			}
 		}
 		fin := func(e *vsched.Execution) sched.Outcome {
-			if !e.Deadlock && len(e.Panics) == 0 {
+			if !e.Deadlock && !e.Livelock && len(e.Panics) == 0 {
 				final = n.Dump()
 			}
 			return check(recs, final, e)
@@ -281,7 +281,7 @@ func check(recs []*rec, final map[string]string, e *vsched.Execution) sched.Outc
 	}
 	sort.Strings(fk)
 	out := sched.Outcome{Key: fmt.Sprintf("%v final=%v", obs, fk), NonTrivial: e.NThreads > 1}
-	if e.Deadlock || len(e.Panics) > 0 {
+	if e.Deadlock || e.Livelock || len(e.Panics) > 0 {
 		return out
 	}
 	for _, r := range recs {
